@@ -1534,6 +1534,7 @@ def create_pipes(net, from_junctions, to_junctions, std_type, length_km,
                "outer_diameter_mm": pipe_parameters["outer_diameter_mm"], "k_mm": pipe_parameters["k_mm"],
                "loss_coefficient": loss_coefficient, "u_w_per_m2k": pipe_parameters['u_w_per_m2k'],
                "sections": sections, "in_service": in_service, "type": type, "text_k": text_k}
+    _check_multiple_branch_geodata(geodata, len(index))
     _set_multiple_entries(net, "pipe", index, **entries, **kwargs)
 
     if geodata is not None:
@@ -1633,6 +1634,7 @@ def create_pipes_from_parameters(net, from_junctions, to_junctions, length_km,
         raise UserWarning('you have defined a std_type, however, using this function you can only '
                           'create a pipe setting specific, individual parameters. If you want to '
                           'create a pipe from net.std_types, please use `create_pipe`')
+    _check_multiple_branch_geodata(geodata, len(index))
     _set_multiple_entries(net, "pipe", index, **entries, **kwargs)
 
     if geodata is not None:
@@ -2044,6 +2046,15 @@ def _check_std_type(net, std_type, table, function_name):
     if std_type not in net['std_types'][table]:
         raise UserWarning('%s is not given in std_types (%s). Either change std_type or define new '
                           'one' % (std_type, table))
+
+
+def _check_multiple_branch_geodata(geodata, nr_elements):
+    if geodata is None or len(geodata) == 0:
+        return
+    single_list = len(geodata[0]) == 2 and not hasattr(geodata[0][0], "__iter__")
+    if not single_list and len(geodata) != nr_elements:
+        raise UserWarning("The geodata must be one list of coordinates or one list of coordinates for each of the "
+                          "%d elements, but %d lists were given" % (nr_elements, len(geodata)))
 
 
 def _add_multiple_branch_geodata(net, table, geodata, index):
